@@ -16,6 +16,7 @@ KNOWN = os.path.join(VERIF, 'KNOWN_FINDINGS.txt')
 MODEL_BIN = os.path.join(LEAN, '.lake', 'build', 'bin')
 GUARD = 'IPR_VERIF'
 NCPU = os.cpu_count() or 4
+TIMEOUT = -999          # run_exe's return code for a process stopped by the time limit
 
 LIB_SOURCES = ['src/interface.cxx', 'src/impl.cxx', 'src/io.cxx', 'src/traversal.cxx', 'src/utility.cxx']
 FLAVORS = {
@@ -296,8 +297,14 @@ def run_exe(exe, args, input_text, timeout=3600, env=None):
     e.setdefault('UBSAN_OPTIONS', 'print_stacktrace=1')
     if env:
         e.update(env)
-    p = subprocess.run([exe] + list(args), input=input_text, stdout=subprocess.PIPE, stderr=subprocess.PIPE,
-                       text=True, timeout=timeout, env=e, errors='replace')
+    try:
+        p = subprocess.run([exe] + list(args), input=input_text, stdout=subprocess.PIPE, stderr=subprocess.PIPE,
+                           text=True, timeout=timeout, env=e, errors='replace')
+    except subprocess.TimeoutExpired as t:
+        # A hang is a result, not a framework error: hand back what was printed so far with rc = TIMEOUT.
+        def txt(b):
+            return b.decode('utf-8', 'replace') if isinstance(b, bytes) else (b or '')
+        return TIMEOUT, txt(t.stdout), txt(t.stderr) + '\n[timeout after %ds]' % timeout
     return p.returncode, p.stdout, p.stderr
 
 
